@@ -181,13 +181,15 @@ type c01Progress struct {
 }
 
 type c01Run struct {
-	c    *mon.Case
-	sp   c01Spec
-	pat  c01Pat
-	A, B *c01End
-	seq  uint32
-	over  atomic.Bool // the verdict is in; the script must not report any more
-	abort atomic.Bool // a Send was refused: the case cannot be decided
+	c        *mon.Case
+	sp       c01Spec
+	pat      c01Pat
+	A, B     *c01End
+	srv, cli *c01End // the listening and the dialing end
+	seq      uint32
+	over     atomic.Bool // the verdict is in; the script must not report any more
+	abort    atomic.Bool // a Send was refused: the case cannot be decided
+	concFail atomic.Bool // a goroutine of a concurrent req/rep phase gave up
 
 	mu       sync.Mutex
 	prog     c01Progress
@@ -282,6 +284,8 @@ func c01Run1(c *mon.Case, sp c01Spec) *c01Run {
 	if sp.Flip {
 		srv, cli = r.B, r.A
 	}
+	r.srv, r.cli = srv, cli
+	c.Cleanup(r.teardown) // runs before the sockets' own cleanups (LIFO)
 	var err error
 	if sp.Limit != 0 && sp.Via == "ep" {
 		err = c01ConnectOpts(srv.sock, cli.sock, sp.Tr, map[string]interface{}{mangos.OptionMaxRecvSize: sp.limitOpt()})
@@ -299,6 +303,22 @@ func c01Run1(c *mon.Case, sp c01Spec) *c01Run {
 		return nil
 	}
 	return r
+}
+
+// teardown closes the listening socket first and the dialing one once it has
+// seen the connection go away.  The end that closes a TCP connection first keeps
+// it in TIME_WAIT; on the accepted side that is harmless (SO_REUSEADDR), on the
+// dialing side it pins an ephemeral port for a minute — thousands of cases
+// would exhaust the port range for everybody on the machine.  Never a verdict.
+func (r *c01Run) teardown() {
+	r.over.Store(true)
+	det0 := r.cli.w.det()
+	att := r.cli.w.att()
+	_ = r.srv.sock.Close()
+	if att > det0 && r.sp.Tr != "inproc" && r.sp.Tr != "ipc" {
+		mon.Await(func() bool { return r.cli.w.det() >= att }, mon.AwaitOpts{Watchdog: 2 * time.Second})
+	}
+	_ = r.cli.sock.Close()
 }
 
 // ---- the oracle -----------------------------------------------------------------------
@@ -459,6 +479,8 @@ func (r *c01Run) accepted(e, from *c01End, it *c01Item, hdr []byte, pipe uint32,
 	r.c.Count("messages_compared", 1)
 	r.c.Count("bytes_compared", it.n)
 	r.c.Count("compared_"+r.sp.Tr, 1)
+	r.c.Count("compared_pat_"+r.sp.Pat, 1)
+	r.c.Count("compared_mode_"+r.sp.Mode, 1)
 	if it.sentinel {
 		r.c.Count("sentinels_confirmed", 1)
 	}
@@ -678,6 +700,270 @@ func (r *c01Run) concPhase(sizes []int) bool {
 	return true
 }
 
+// ---- concurrent request/reply --------------------------------------------------------------
+
+// c01RW is what a goroutine of a concurrent req/rep phase talks through: a
+// context of a cooked socket, or the raw socket itself.
+type c01RW interface {
+	SendMsg(*mangos.Message) error
+	RecvMsg() (*mangos.Message, error)
+}
+
+// concRR: a cooked requester runs 2-4 contexts, each with its own sequence of
+// round trips, concurrently over the one connection; a raw requester pipelines
+// all requests from one goroutine.  A cooked responder answers from 2-3
+// contexts concurrently, a raw one from one goroutine.  Requests arriving at
+// the responder are matched as a multiset; each reply must be byte-identical
+// to the answer that belongs to the request it answers.
+func (r *c01Run) concRR(sizes []int) bool {
+	cs := &c01Conc{}
+	reqLane := &c01Lane{from: r.A, to: r.B}
+	repLane := &c01Lane{from: r.B, to: r.A}
+	// A responder tells requests apart by their content only, so requests with
+	// identical bodies (short ones, one-value fills) get identical answers.
+	sameAs := map[string]*c01Item{}
+	for i, n := range sizes {
+		q := r.newItem(n, false)
+		q.reply = r.newItem(sizes[len(sizes)-1-i], false)
+		if first := sameAs[string(q.want)]; first != nil {
+			q.reply.n, q.reply.want = first.reply.n, first.reply.want
+		} else {
+			sameAs[string(q.want)] = q
+		}
+		reqLane.items = append(reqLane.items, q)
+		repLane.items = append(repLane.items, q.reply)
+	}
+	cs.lanes = []*c01Lane{reqLane, repLane}
+	r.setProg(c01Progress{op: "recv", conc: cs})
+	fail := func() { r.concFail.Store(true) }
+	var closing atomic.Bool
+
+	sendOn := func(rw c01RW, e *c01End, it *c01Item, hdr []byte) bool {
+		m := mangos.NewMessage(it.n)
+		m.Body = append(m.Body, it.want...)
+		if e.raw {
+			m.Header = append(m.Header, hdr...)
+		}
+		if err := rw.SendMsg(m); err != nil {
+			m.Free()
+			if !r.over.Load() && !closing.Load() {
+				r.c.Inconclusive("%s Send of %d bytes (msg %08x) returned %v — message not accepted, nothing to compare", e.proto, it.n, it.id, err)
+				r.abort.Store(true)
+			}
+			return false
+		}
+		r.c.Count("messages_sent", 1)
+		return true
+	}
+	recvOn := func(rw c01RW) (c01Rx, error) {
+		m, err := rw.RecvMsg()
+		if err != nil {
+			return c01Rx{}, err
+		}
+		x := c01Rx{body: append([]byte{}, m.Body...), hdr: append([]byte{}, m.Header...)}
+		if m.Pipe != nil {
+			x.pipe = m.Pipe.ID()
+		}
+		m.Free()
+		return x, nil
+	}
+
+	// responder side
+	pending := map[string][]*c01Item{} // request body -> requests not yet seen at B (under cs.mu)
+	for _, q := range reqLane.items {
+		pending[string(q.want)] = append(pending[string(q.want)], q)
+	}
+	serve := func(rw c01RW, max int) {
+		for n := 0; max < 0 || n < max; n++ {
+			x, err := recvOn(rw)
+			if err != nil {
+				if !closing.Load() && !r.over.Load() {
+					r.c.Violate(fmt.Sprintf("c01/recv-error:%s:%s:%v", r.sp.Tr, r.route(r.A, r.B), err),
+						"%s over %s, concurrent request phase: Recv returned %v although the messages were accepted by Send on the connected peer", r.route(r.A, r.B), r.sp.Tr, err)
+					fail()
+				}
+				return
+			}
+			cs.mu.Lock()
+			var q *c01Item
+			if l := pending[string(x.body)]; len(l) > 0 {
+				q, pending[string(x.body)] = l[0], l[1:]
+			}
+			var missing []*c01Item
+			if q == nil {
+				missing, _ = reqLane.outstanding()
+			}
+			reqLane.got = append(reqLane.got, x)
+			cs.mu.Unlock()
+			if q == nil {
+				// a request that equals no outstanding one: compare with the one it claims to be (embedded ^id)
+				it := reqLane.items[0]
+				if len(missing) > 0 {
+					it = missing[0]
+				}
+				if len(x.body) >= 12 {
+					id := ^binary.BigEndian.Uint32(x.body[8:12])
+					for _, o := range reqLane.items {
+						if o.id == id {
+							it = o
+						}
+					}
+				}
+				r.mismatch(r.B, r.A, it, x.body, fmt.Sprintf("%s over %s, concurrent request phase: a received request equals none of the accepted sends still outstanding (%d missing)", r.route(r.A, r.B), r.sp.Tr, len(missing)))
+				fail()
+				return
+			}
+			where := fmt.Sprintf("%s over %s, concurrent request phase (id %08x, %d bytes)", r.route(r.A, r.B), r.sp.Tr, q.id, q.n)
+			if !r.accepted(r.B, r.A, q, x.hdr, x.pipe, r.hdrWant(r.A, q, false, nil), where) {
+				fail()
+				return
+			}
+			if !sendOn(rw, r.B, q.reply, r.hdrFor(r.B, q.reply, true, q)) {
+				fail()
+				return
+			}
+		}
+	}
+	var servers, askers sync.WaitGroup
+	var bctx []mangos.Context
+	if r.B.raw {
+		servers.Add(1)
+		go func() { defer servers.Done(); serve(r.B.sock, len(reqLane.items)) }()
+		r.c.Count("concurrent_responder_goroutines", 1)
+	} else {
+		k := 2 + r.c.Rand.Intn(2)
+		for i := 0; i < k; i++ {
+			cx, err := r.B.sock.OpenContext()
+			if err != nil {
+				r.c.Inconclusive("setup: OpenContext on %s: %v", r.B.proto, err)
+				r.abort.Store(true)
+				return false
+			}
+			bctx = append(bctx, cx)
+			servers.Add(1)
+			go func() { defer servers.Done(); serve(cx, -1) }()
+		}
+		r.c.Count("concurrent_responder_goroutines", k)
+	}
+
+	// requester side
+	gotReply := func(q *c01Item, x c01Rx) bool {
+		cs.mu.Lock()
+		repLane.got = append(repLane.got, x)
+		cs.mu.Unlock()
+		where := fmt.Sprintf("%s over %s, concurrent reply phase (reply id %08x, %d bytes, to request id %08x)", r.route(r.B, r.A), r.sp.Tr, q.reply.id, q.reply.n, q.id)
+		if !bytes.Equal(x.body, q.reply.want) {
+			r.mismatch(r.A, r.B, q.reply, x.body, where)
+			return false
+		}
+		return r.accepted(r.A, r.B, q.reply, x.hdr, x.pipe, r.hdrWant(r.B, q.reply, true, q), where)
+	}
+	if r.A.raw {
+		askers.Add(1)
+		go func() {
+			defer askers.Done()
+			byRid := map[uint32]*c01Item{}
+			for _, q := range reqLane.items {
+				byRid[q.rid] = q
+				if !sendOn(r.A.sock, r.A, q, r.hdrFor(r.A, q, false, nil)) {
+					fail()
+					return
+				}
+			}
+			for range reqLane.items {
+				x, err := recvOn(r.A.sock)
+				if err != nil {
+					if !r.over.Load() {
+						r.c.Violate(fmt.Sprintf("c01/recv-error:%s:%s:%v", r.sp.Tr, r.route(r.B, r.A), err),
+							"%s over %s, concurrent reply phase: Recv returned %v although the reply was accepted by Send on the connected peer", r.route(r.B, r.A), r.sp.Tr, err)
+					}
+					fail()
+					return
+				}
+				// the raw requester tells replies apart by the id it put in the request header
+				var q *c01Item
+				if len(x.hdr) == 4 {
+					q = byRid[binary.BigEndian.Uint32(x.hdr)]
+					delete(byRid, binary.BigEndian.Uint32(x.hdr))
+				}
+				if q == nil {
+					cs.mu.Lock()
+					repLane.got = append(repLane.got, x)
+					cs.mu.Unlock()
+					r.c.Violate(fmt.Sprintf("c01/raw-header:%s:%s", r.sp.Tr, r.route(r.B, r.A)),
+						"%s over %s, concurrent reply phase: raw-mode header of a received reply is %x; want the id of a request still unanswered", r.route(r.B, r.A), r.sp.Tr, x.hdr)
+					fail()
+					return
+				}
+				if !gotReply(q, x) {
+					fail()
+					return
+				}
+			}
+		}()
+		r.c.Count("concurrent_sender_goroutines", 1)
+	} else {
+		k := 2 + r.c.Rand.Intn(3)
+		for i := 0; i < k; i++ {
+			cx, err := r.A.sock.OpenContext()
+			if err != nil {
+				r.c.Inconclusive("setup: OpenContext on %s: %v", r.A.proto, err)
+				r.abort.Store(true)
+				return false
+			}
+			var mine []*c01Item
+			for j := i; j < len(reqLane.items); j += k {
+				mine = append(mine, reqLane.items[j])
+			}
+			askers.Add(1)
+			go func() {
+				defer askers.Done()
+				defer cx.Close()
+				for _, q := range mine {
+					if !sendOn(cx, r.A, q, nil) {
+						fail()
+						return
+					}
+					x, err := recvOn(cx)
+					if err != nil {
+						if !r.over.Load() {
+							r.c.Violate(fmt.Sprintf("c01/recv-error:%s:%s:%v", r.sp.Tr, r.route(r.B, r.A), err),
+								"%s over %s, concurrent reply phase: Recv returned %v although the reply was accepted by Send on the connected peer", r.route(r.B, r.A), r.sp.Tr, err)
+						}
+						fail()
+						return
+					}
+					if !gotReply(q, x) {
+						fail()
+						return
+					}
+				}
+			}()
+		}
+		r.c.Count("concurrent_sender_goroutines", k)
+	}
+	askers.Wait()
+	closing.Store(true)
+	for _, cx := range bctx {
+		cx.Close()
+	}
+	servers.Wait()
+	if r.over.Load() || r.abort.Load() {
+		return false
+	}
+	if r.concFail.Load() || r.c.Failed() {
+		return false
+	}
+	r.c.Count("concurrent_messages_matched", len(reqLane.got)+len(repLane.got))
+	// nothing extra is queued behind the phase: one more round trip on the sockets themselves
+	q := r.newItem(r.sentinelSize(), true)
+	q.reply = r.newItem(r.sentinelSize(), true)
+	return r.send(r.A, r.B, q, r.hdrFor(r.A, q, false, nil), 0, len(sizes)) &&
+		r.recv(r.B, r.A, q, r.hdrWant(r.A, q, false, nil), 0, len(sizes)) &&
+		r.send(r.B, r.A, q.reply, r.hdrFor(r.B, q.reply, true, q), 0, len(sizes)) &&
+		r.recv(r.A, r.B, q.reply, r.hdrWant(r.B, q.reply, true, q), 0, len(sizes))
+}
+
 // ---- headers (raw mode), read off each x-protocol's SendMsg / receiver ------------------
 
 // hdrFor returns the header a raw sender e must supply for item it.
@@ -792,9 +1078,9 @@ func (r *c01Run) sentinelSize() int {
 }
 
 type c01Burst struct {
-	dir   int     // 0: A->B, 1: B->A, 2: both directions loaded before anything is received
-	sizes []int   // body sizes (requests, for req/rep patterns)
-	rsz   []int   // reply sizes (req/rep patterns)
+	dir   int   // 0: A->B, 1: B->A, 2: both directions loaded before anything is received
+	sizes []int // body sizes (requests, for req/rep patterns)
+	rsz   []int // reply sizes (req/rep patterns)
 }
 
 func (r *c01Run) plan() []c01Burst {
@@ -862,8 +1148,14 @@ func (r *c01Run) items(sizes []int) []*c01Item {
 }
 
 func (r *c01Run) script(plan []c01Burst) {
-	if r.sp.Shape == "conc" && r.pat.kind != kReqRep {
-		if !r.concPhase(r.sp.Sizes) {
+	if r.sp.Shape == "conc" {
+		ok := false
+		if r.pat.kind == kReqRep {
+			ok = r.concRR(r.sp.Sizes)
+		} else {
+			ok = r.concPhase(r.sp.Sizes)
+		}
+		if !ok {
 			return
 		}
 		r.c.Count("bursts", 1)
@@ -956,9 +1248,9 @@ func c01Case(c *mon.Case, sp c01Spec) {
 	plan := r.plan()
 	call := mon.Go("c01-script", func() (interface{}, error) { r.script(plan); return nil, nil })
 	dropped := func() bool { return r.A.w.det() > 0 || r.B.w.det() > 0 }
-	res := mon.Await(func() bool { return call.Done() || dropped() || r.abort.Load() }, mon.AwaitOpts{Watchdog: 120 * time.Second})
-	if r.abort.Load() {
-		r.over.Store(true) // a Send was refused; the inconclusive outcome is recorded
+	res := mon.Await(func() bool { return call.Done() || dropped() || r.abort.Load() || r.concFail.Load() }, mon.AwaitOpts{Watchdog: 120 * time.Second})
+	if r.abort.Load() || (r.concFail.Load() && (c.Failed() || c.Undecided())) {
+		r.over.Store(true) // a Send was refused or a concurrent goroutine recorded its verdict; nothing more to decide
 		return
 	}
 	p := r.getProg()
@@ -1004,6 +1296,10 @@ func c01Case(c *mon.Case, sp c01Spec) {
 	switch {
 	case res.V == mon.Done && call.Done():
 		// the script ended: completed, or stopped at a violation / inconclusive it recorded itself
+	case res.V == mon.Done && !dropped():
+		r.over.Store(true)
+		c.Inconclusive("a goroutine of the concurrent phase gave up without recording why: %s", where())
+		return
 	case res.V == mon.Done:
 		// a pipe went away under an open connection carrying only in-contract messages
 		// (give the script a moment to finish on its own: the drop may have come after the last receive)
@@ -1045,7 +1341,8 @@ func c01Case(c *mon.Case, sp c01Spec) {
 		c.Sig("%s|%s|%s|L%d|%s", sp.Tr, sp.Pat, sp.Mode, sp.Limit, sp.Via)
 	}
 	c.Nontrivial()
-	if sp.Limit > 0 && sp.Tr != "inproc" {
+	if sp.Limit > 0 && sp.Tr != "inproc" && sp.Flip {
+		// only where the receiver B is the listening end: the end that rejects closes first (see teardown)
 		r.overLimitProbe()
 	}
 }
